@@ -8,6 +8,35 @@ HERE = os.path.dirname(os.path.dirname(os.path.abspath(__file__)))
 
 # id -> (technique, level text, level note, design ref)
 CLAIMS = {
+    "C10": (
+        "set-algebra abstraction of the cell taggers' comprehensions and of the far-field table loops (domain terms over "
+        "AllCells / Nearby / Occ / Surplus compared as sets); per-config family-completeness rule over all shipped .ini; "
+        "mirror-closure and label-resolution checks on factor files; structural rules on the factor-map generators",
+        "Decides the set-algebraic skeleton of 'each partner exactly once': the nearby-cell domain of the explicit pair "
+        "tagger and the domain of the cell-bounding tagger / cell-veto walker / cell-bound tables are complements built from "
+        "the same nearby_cells of the same cell system, surplus units are all treated, the veto target is the occupant list "
+        "of the translated sampled cell in the tagger's own occupancy; every cell system of every shipped configuration has "
+        "exactly one explicit tagger, one boundary tagger, a surplus tagger iff occupants are limited and one far-field "
+        "tagger unless the potential is hard-core; factor files are mirror-closed, labels resolve, and the factor-map "
+        "generators instantiate an index set once per other object (inter) or once (intra), de-duplicated. The partition on "
+        "concrete float positions (cell membership) is not decided.",
+        "Trusted: role identification of occupant / surplus tables from __getitem__ / yield_surplus; nearby_cells of one "
+        "PeriodicCells instance is a fixed symmetric relation (C16, not decided here).",
+        "DESIGN.md section 3, C10"),
+    "C11": (
+        "move-only (linear) accounting rules on SingleActiveCellOccupancy: cap-guarded placement sites with sibling "
+        "agreement, removal pairing through the try/except idiom, reaching-definition order for the recorded cell; landing "
+        "table and def-use component consistency of the cell-boundary handler; ordering rule in TagActivator",
+        "Decides the bookkeeping skeleton of 'recorded exactly once in the right list': every filing is cap-guarded and "
+        "identical in initialize and update, a new active unit leaves exactly one list, the previous one is re-filed once "
+        "under the cell recorded for it, irrelevant units are recorded nowhere, the active cell is always recomputed from "
+        "the position (also after a crossing), the boundary event lands on the neighbour's facing boundary in the same "
+        "direction after a full time-slice, image shifts use the right component, and the occupancy is updated before any "
+        "tagger reads it. Whether position_to_cell(position) equals the recorded cell on floats, and that no cell is left "
+        "without a boundary event (event ordering), are not decided.",
+        "Trusted: role identification of the occupancy tables; the accepted placement idiom `len(occupants[c]) < max or "
+        "unbounded`.",
+        "DESIGN.md section 3, C11"),
     "C20": (
         "must-dataflow over both run loops (sibling agreement on the component-API order); block-level typestate of the "
         "pipe protocol against a frozen stage-transition table, with guard propagation; duality rules between parent "
